@@ -164,7 +164,12 @@ def run_case(lib, case):
     want = c12docs.expected(lib, case)
     for kind in c12docs.KINDS:
         compare(kind, obs[kind], want[kind], fails)
-    # iterating twice yields the same sequence (generators are re-entrant: "exactly one per path")
+    # iterating again yields the same sequence (nothing is consumed or cached by a traversal)
+    again = [(A.get(bg.original.id, BAD), ints(bg.matrix)) for bg in doc.scene.objects('geometry')]
+    first = [(o['target'], o['M']) for o in obs['geometry']]
+    if again != first and len(fails) < 4:
+        fails.append({'clause': 'one-per-path-in-order', 'site': 'second-traversal',
+                      'detail': 'a second Scene.objects(\'geometry\') yielded %d objects %r, the first %d' % (len(again), again[:6], len(first))})
     flat = {k: [c12docs.flatten(k, s) for s in obs[k]] for k in c12docs.KINDS}
     return {'obs': flat, 'fails': fails}
 
